@@ -80,14 +80,26 @@ def _structural_branches(tree) -> dict:
     if not (plain or uses_content):
         raise Untranslatable("_cache_id: unrecognised key for SettingsCreator objects")
     out["rp_content_in_key"] = bool(uses_content)
-    s_ret = kinds[1][1].body
+    s_ret, p_ret = kinds[1][1].body, kinds[2][1].body
+
+    def via_file_key(body):
+        return (len(body) == 1 and isinstance(body[0], ast.Return) and isinstance(body[0].value, ast.Call)
+                and isinstance(body[0].value.func, ast.Attribute) and body[0].value.func.attr == "_file_key"
+                and len(body[0].value.args) == 1 and _is_name(body[0].value.args[0], "settings"))
+    if via_file_key(s_ret) and via_file_key(p_ret):
+        # both branches go through SQLCache._file_key, which must read the file (read_bytes / read_text / stat)
+        fk = _find(tree, "SQLCache", "_file_key")
+        reads = any(isinstance(n, ast.Attribute) and n.attr in ("read_bytes", "read_text", "stat") for n in ast.walk(fk))
+        if not reads:
+            raise Untranslatable("_cache_id: _file_key does not look at the file")
+        out["file_content_in_key"] = True
+        return out
     if not (len(s_ret) == 1 and isinstance(s_ret[0], ast.Return) and _is_name(s_ret[0].value, "settings")):
         raise Untranslatable("_cache_id: the str branch does not return the string itself")
-    p_ret = kinds[2][1].body
     if not (len(p_ret) == 1 and isinstance(p_ret[0], ast.Return) and isinstance(p_ret[0].value, ast.Call)
             and _is_name(p_ret[0].value.func, "str") and _is_name(p_ret[0].value.args[0], "settings")):
         raise Untranslatable("_cache_id: the Path branch does not return str(path)")
-    out["str_and_path_keys_are_the_path_text"] = True
+    out["file_content_in_key"] = False
     return out
 
 
@@ -229,10 +241,41 @@ def behavioural() -> dict:
     mut.comparisons = creators_dict(1)["comparisons"]
     out["mutation_changes_key"] = kid(mut, "duckdb") != k_before
     out["flag_changes_key"] = _flag_changes_key()
+    out.update(_file_keys())
     out["live_entry_served"] = alive is not None
     out["dead_entry_not_served"] = dead is None
     out["dead_entry_evicted"] = Fixed.key not in c._cache
     return out
+
+
+def _file_keys() -> dict:
+    """Keys of settings given as file names: str and Path of one file agree; two files with the same basename differ;
+    whether rewriting the file changes the key."""
+    import json
+    import os
+    import shutil
+    import tempfile
+    from pathlib import Path
+    from splink import SettingsCreator
+    from splink.internals.realtime import SQLCache
+    kid = SQLCache._cache_id
+    tmp = tempfile.mkdtemp(prefix="c07rt_T_")
+    try:
+        names = []
+        for d, conf in (("a", 0), ("b", 1)):
+            os.makedirs(os.path.join(tmp, d))
+            names.append(os.path.join(tmp, d, "model.json"))
+            with open(names[-1], "w") as f:
+                json.dump(SettingsCreator(**creators_dict(conf)).create_settings_dict("duckdb"), f)
+        out = {"str_and_path_of_one_file_same_key": kid(names[0], "duckdb") == kid(Path(names[0]), "duckdb"),
+               "same_basename_other_directory_other_key": kid(names[0], "duckdb") != kid(names[1], "duckdb")}
+        before = kid(names[0], "duckdb")
+        with open(names[0], "w") as f:
+            json.dump(SettingsCreator(**creators_dict(2)).create_settings_dict("duckdb"), f)
+        out["file_rewrite_changes_key"] = kid(names[0], "duckdb") != before
+        return out
+    finally:
+        shutil.rmtree(tmp, ignore_errors=True)
 
 
 def _flag_changes_key() -> bool:
@@ -283,7 +326,10 @@ def params() -> tuple[dict, list[str], dict]:
         problems.append("dicts holding creators that differ only in configure() values get the same key")
     if not beh["dead_entry_not_served"]:
         problems.append("the entry of a garbage-collected SettingsCreator is still served (weak reference not called)")
-    for k in ("same_configuration_same_key", "base_distinguishes_keys", "live_entry_served"):
+    if "file_content_in_key" in st and st["file_content_in_key"] != beh["file_rewrite_changes_key"]:
+        problems.append("source and probe disagree on whether the key of a settings file follows the file's content")
+    for k in ("same_configuration_same_key", "base_distinguishes_keys", "live_entry_served",
+              "str_and_path_of_one_file_same_key", "same_basename_other_directory_other_key"):
         if not beh[k]:
             problems.append(f"behavioural probe failed: {k}")
     if beh["dead_entry_not_served"] and not beh["dead_entry_evicted"]:
